@@ -231,6 +231,7 @@ def write_evidence(mod, ctx, report, tier, seed, t0, violations, extra_assumptio
         "axioms": report.get("axioms", {}),
         "translator": {"translated": report.get("translated", []), "regenerated_this_run": report.get("regenerated", []),
                        "errors": report.get("translator_errors", [])},
+        "source_pins": report.get("source_pins", {}),
         "build_ok": report.get("build_ok"), "build_s": report.get("build_s"),
         "audit_problems": report.get("audit_problems", []),
         "evaluations": ctx.evaluations,
@@ -287,6 +288,13 @@ def main():
         known_sigs = {k["signature"]: k for k in known}
 
         tr_ok = regenerate(mod, report)
+        # source pins: the functions the hand model transcribes still have the text it was validated against
+        from translate import source_pin
+        n_pins, pin_msgs = source_pin.check(VERIF, mod.ID, util.REPO)
+        report["source_pins"] = {"checked": n_pins, "changed": pin_msgs}
+        if pin_msgs:
+            report["translator_errors"] += pin_msgs
+            tr_ok = False
         proof_ok = build_and_audit(mod, report) and tr_ok
         if proof_ok and a.tier == "thorough" and os.environ.get("VERIF_SKIP_LEANCHECKER") != "1":
             proof_ok = thorough_recheck(mod, report) and proof_ok
